@@ -64,6 +64,10 @@ int libwifi_parse_assoc_req(struct libwifi_sta *sta, struct libwifi_frame *frame
     sta->tags.length = (frame->len - (frame->header_len + sizeof(struct libwifi_assoc_req_fixed_parameters)));
     const unsigned char *tagged_params = frame->body + sizeof(struct libwifi_assoc_req_fixed_parameters);
     sta->tags.parameters = malloc(sta->tags.length);
+    if (sta->tags.parameters == NULL) {
+        sta->tags.length = 0;
+        return -ENOMEM;
+    }
     memcpy(sta->tags.parameters, tagged_params, sta->tags.length);
 
     struct libwifi_tag_iterator it;
